@@ -1,7 +1,7 @@
 (* C12 — Close always terminates and releases everything.  Statements only (partial: fairness of
    the Go scheduler, OS release of ports and real goroutine exit are measured by the scenario
    harness, not proved). *)
-From GM Require Import Node NodeBase NodeEvents NodeClose.
+From GM Require Import Node NodeBase NodeEvents NodeClose NodeLive.
 
 (* after Close() the node is never stuck before everything has ended, whatever the application
    does (consuming events or not, Write* callers running or not) and whatever the channels are
@@ -35,3 +35,14 @@ Theorem C12_pcs_consistent : forall s, reachable s -> forall c ch, nth_error (ch
   s_inv (term s) ch /\ pc_ok ch.
 Proof. intros s R c ch N. split; [apply (s_inv_reachable s R c ch N)|apply (ei_pc _ _ (ev_inv_reachable s R c ch N))]. Qed.
 Print Assumptions C12_pcs_consistent.
+
+(* ... and can always finish by itself: from EVERY reachable state in which Close() has been called
+   there is a run of at most [mu s] library steps (no application step, no fresh input; the only
+   environment facts used are that a Read on a closed transport fails and that a Write returns)
+   that ends with Close() returned and Events() closed.  With close_no_deadlock: neither a
+   deadlock nor a livelock trap exists.  (Termination under every fair schedule is not proved:
+   the model lets a transport deliver input for ever.) *)
+Theorem C12_close_can_complete : forall n s, mu s <= n -> reachable s -> term s = true ->
+  exists ls s', forallb sys_label ls = true /\ length ls <= n /\ run s ls = Some s' /\ loop s' = LEnd /\ events_closed s' = true.
+Proof. exact close_can_complete. Qed.
+Print Assumptions C12_close_can_complete.
